@@ -9,6 +9,7 @@
  *           deletion of a set of base descriptions (exact-size heap copies).
  */
 #include "hwmc.h"
+#include <ctype.h>
 #include "univ.h"
 #include "canon.h"
 #include "wf.h"
@@ -193,6 +194,48 @@ static void faithful(hwloc_topology_t t, const struct syn_desc *d)
           /* PU parents may hold several description groups when a level was merged: every written group must lie inside one parent */
           for (int x = 0; x < nws; x++) { int ok = 0; for (int y = 0; y < ngs; y++) if ((want_sets[x] & got_sets[y]) == want_sets[x]) ok = 1;
             if (!ok) { mc_violation("c07.faithful.indexes", "%s :: PUs %#" PRIx64 " written as siblings do not share a parent", d->text, want_sets[x]); break; } }
+        }
+      }
+    } else if (l->indexes && i == d->nlevels - 1 && (strchr(l->indexes, ':') || strchr(l->indexes, '*') || isalpha((unsigned char)l->indexes[0])) && !strchr(l->indexes, ',') && width <= 64) {
+      /* interleaved indexes.  "t1:t2:..." = consecutive OS indexes go to successive t1 objects (inside the closest listed
+       * level above t1, the machine if none), then to successive t2 objects, ..., finally to what is left below the deepest
+       * listed level; "s*n:..." gives the loops directly (position / s modulo n).  E[j] is the OS index of the j-th PU in
+       * description order; what the topology must show is, for every level, which OS indexes share an object. */
+      unsigned total = (unsigned)width, E[64] = {0}, step[9], nb[9]; int nloops = 0, valid = 1;
+      uint64_t w_at[SYN_MAXLEVELS]; { uint64_t w = 1; for (int k = 0; k < d->nlevels; k++) { w *= d->lv[k].arity; w_at[k] = w; } }
+      if (isdigit((unsigned char)l->indexes[0])) {
+        const char *p = l->indexes;
+        while (*p && nloops < 8) { char *e; unsigned s = (unsigned)strtoul(p, &e, 10); if (e == p || *e != '*') { valid = 0; break; } p = e + 1; unsigned n = (unsigned)strtoul(p, &e, 10); if (e == p || !s || !n) { valid = 0; break; } step[nloops] = s; nb[nloops] = n; nloops++; p = e; if (*p == ':') p++; else if (*p) { valid = 0; break; } }
+      } else {
+        int lev[8]; const char *p = l->indexes;
+        while (*p && nloops < 8) {
+          size_t n = strcspn(p, ":"); int found = -1;
+          /* the level that carries the attribute cannot be named (the loader looks among the levels that have children): such a spec is ignored */
+          for (int k = 0; k < d->nlevels - 1; k++) { const char *tn = d->lv[k].type == HWLOC_OBJ_PACKAGE ? "package" : d->lv[k].type == HWLOC_OBJ_NUMANODE ? "numa" : d->lv[k].type == HWLOC_OBJ_CORE ? "core" : d->lv[k].type == HWLOC_OBJ_PU ? "pu" : NULL; if (tn && strlen(tn) == n && !strncmp(tn, p, n) && typed_n[d->lv[k].type] == 1) found = k; }
+          if (found < 0) { valid = 0; break; }
+          for (int q = 0; q < nloops; q++) if (lev[q] == found) valid = 0;
+          lev[nloops++] = found; p += n; if (*p == ':') p++;
+        }
+        for (int q = 0; valid && q < nloops; q++) { int prev = -1; for (int r = 0; r < nloops; r++) if (lev[r] < lev[q] && lev[r] > prev) prev = lev[r]; step[q] = (unsigned)(total / w_at[lev[q]]); nb[q] = (unsigned)(w_at[lev[q]] / (prev >= 0 ? w_at[prev] : 1)); }
+      }
+      if (valid) {
+        unsigned long nbs = 1; unsigned minstep = total; for (int q = 0; q < nloops; q++) { nbs *= nb[q]; if (step[q] < minstep) minstep = step[q]; }
+        if (nbs != total) { if (nbs && total % nbs == 0 && minstep == total / nbs) { step[nloops] = 1; nb[nloops] = (unsigned)(total / nbs); nloops++; } else valid = 0; }
+      }
+      if (valid) {
+        unsigned mul = 1; for (int q = 0; q < nloops; q++) { for (unsigned j = 0; j < total; j++) E[j] += ((j / step[q]) % nb[q]) * mul; mul *= nb[q]; }
+        uint64_t seen = 0; for (unsigned j = 0; j < total; j++) { if (E[j] >= total || (seen >> E[j]) & 1) valid = 0; else seen |= 1ULL << E[j]; }
+      }
+      if (valid) {
+        mc_count("interleavings_checked_against_the_reference", 1);
+        for (int k = 0; k < d->nlevels; k++) {
+          int ty = d->lv[k].type; if (ty < 0 || typed_n[ty] != 1 || ty == HWLOC_OBJ_DIE || ty == HWLOC_OBJ_GROUP) continue;
+          if (count_type(t, (hwloc_obj_type_t)ty) != w_at[k]) continue;
+          uint64_t want[64], got[64]; unsigned nw = 0, ng = 0, per = (unsigned)(total / w_at[k]);
+          for (unsigned b0 = 0; b0 < w_at[k] && nw < 64; b0++) { uint64_t m = 0; for (unsigned j = 0; j < per; j++) m |= 1ULL << E[b0 * per + j]; want[nw++] = m; }
+          for (hwloc_obj_t o = hwloc_get_obj_by_type(t, (hwloc_obj_type_t)ty, 0); o && ng < 64; o = o->next_cousin) { uint64_t m = 0; int b1; hwloc_bitmap_foreach_begin(b1, o->cpuset) { if (b1 < 64) m |= 1ULL << b1; } hwloc_bitmap_foreach_end(); got[ng++] = m; }
+          int same = nw == ng; for (unsigned x = 0; same && x < nw; x++) { int f = 0; for (unsigned y = 0; y < ng; y++) if (want[x] == got[y]) f = 1; if (!f) same = 0; }
+          if (!same) { mc_violation("c07.faithful.interleaving", "%s :: the %s objects do not hold the OS indexes that the interleaving defines (first expected set %#" PRIx64 ", first found %#" PRIx64 ")", d->text, hwloc_obj_type_string((hwloc_obj_type_t)ty), want[0], ng ? got[0] : 0); break; }
         }
       }
     } else if (i == d->nlevels - 1 && !l->indexes) {
